@@ -1,5 +1,7 @@
 import Driver.Proto
 import Gotree.Spec.C10
+import Gotree.Model.C10Cancel
+import Gotree.Model.C10Opts
 
 /-
   C10 driver.  Case lines (harness/c10):
@@ -210,6 +212,50 @@ def stepCase (kind th pos share rd bds out after : String) : Verdict :=
         else ⟨.pass, tags, ""⟩
   | _, _ => bad "C10.step dumps"
 
+/-- one call with a `*support.Supporter` whose counter holds `p0`, cancelled as soon as `k` bootstrap
+    trees of this call are finished (harness/c10/cancel.go).  What the definitions give for the FIRST
+    `k` trees is what the call must return (oracle, when that prefix is inside the quantifier);
+    outcome, supports, annotated tree and `Progress()` afterwards against `fbpS` / `tbeS`. -/
+def cancelCase (kind th ks p0s rd bds out after progs : String) : Verdict :=
+  match T.undump rd, parseDumps bds, ks.toNat?, p0s.toNat?, progs.toInt? with
+  | some r, some bs, some k, some p0, some prog =>
+    let a? := if after == "" then none else T.undump after
+    if after != "" && a?.isNone then bad "C10.cancel after dump" else
+    let pre := bs.take k
+    let uniq := specUniq r && pre.all specUniq
+    let wf := specWf r && pre.all specWf
+    let mismatch := pre.any fun b => !sameTaxa r b
+    let ids := idsInRange r
+    let thN : Int := th.toInt?.getD 1
+    let isF := kind == "fbp"
+    let tags := ["cancel", "cancel-" ++ kind, "threads=" ++ th] ++
+      tagIf (k == 0) "cancel-before-start" ++ tagIf (0 < k && k < bs.length) "cancel-mid-run" ++
+      tagIf (bs.length ≤ k) "never-cancelled" ++ tagIf (p0 > 0) "supporter-reused" ++
+      tagIf (((a?.map supsOf).getD []).any between) "nontrivial" ++ tagIf mismatch "mismatch" ++
+      tagIf ((bs.drop k).any fun b => !sameTaxa r b) "other-taxa-after-cancel" ++
+      tagIf (hypOK r pre) "hyp-hypOK" ++ tagIf (hypOK r pre && ids) "hyp-hypOK+idsInRange"
+    let gate := uniq && wf && !pre.isEmpty && (isF || ids)
+    let name := (if isF then "FBP" else "TBE") ++ " cancelled after " ++ ks ++ " of " ++ toString bs.length ++ " trees"
+    let orc : Option String :=
+      if !gate then none
+      else if mismatch then
+        (if !taxaError out then some (name ++ ": bootstrap tree on other taxa not rejected as such (outcome " ++ out ++ ")") else none)
+      else if isF then checkOne name fbpOK r pre out a?
+      else checkOne name tbeOK r pre out a?
+    match orc with
+    | some m => ⟨.oracle, tags, m⟩
+    | none =>
+      let m := if isF then fbpS r bs p0 (p0 + k) else tbeS r bs p0 (p0 + k)
+      match tieOne name m.1 out a? (if isF then approxRelOrEq else approxAbs) with
+      | some msg => ⟨.tie, tags, msg⟩
+      | none =>
+        if fidelityDiff r a? then ⟨.tie, tags, name ++ ": the annotated reference is not the model's"⟩
+        -- with several FBP workers and a refused tree the counter depends on the schedule
+        else if (thN ≤ 1 || !isF || !mismatch) && prog != ((m.2 : Nat) : Int) then
+          ⟨.tie, tags, name ++ ": Progress() is " ++ progs ++ ", model " ++ toString m.2 ++ " (was " ++ p0s ++ " before the call)"⟩
+        else ⟨.pass, tags, ""⟩
+  | _, _, _, _, _ => bad "C10.cancel fields"
+
 def parseItems (s : String) : List (Item String) :=
   (splitTerm "|" s).map fun x =>
     if x == "B" then .blank else if x == "J" then .junk
@@ -276,16 +322,35 @@ def parseBranches (s : String) : Option (List (Int × Int × Rat × List Rat)) :
 
 /-- TBE's other outputs (raw tree, moved taxa, per branch) against the model: correspondence;
     the average transfer distance of the raw tree is also checked against the definition -/
-def logCase (rd bds cs out raws taxas brs : String) : Verdict :=
+def logCase (mode opts rd bds cs out raws taxas brs : String) (after : Option String) : Verdict :=
   match T.undump rd, parseDumps bds, parseRat? cs, parseRaw raws, parseTaxa taxas, parseBranches brs with
   | some r, some bs, some cutoff, some raw, some taxa, some branches =>
+    let a? := after.bind fun x => if x == "" then none else T.undump x
+    if after.isSome && out == "ok" && a?.isNone then bad "C10.logx after dump" else
+    let optA := opts.contains 'a'
+    let optB := opts.contains 'b'
+    let optR := opts.contains 'r'
     let ok := hypOK r bs && idsInRange r && distinctIds r
-    let tags := ["log"] ++ tagIf ok "hyp-log" ++ tagIf (ok && !parserIds r) "ids-permuted" ++ tagIf (taxa.any fun x => x.2 != 0) "nontrivial" ++
+    let tags := ["log", "log-" ++ mode, "log-opts=" ++ opts] ++ tagIf (opts != "abr") "log-option-subset" ++ tagIf ok "hyp-log" ++ tagIf (ok && !parserIds r) "ids-permuted" ++ tagIf (taxa.any fun x => x.2 != 0) "nontrivial" ++
       tagIf (taxa.any fun x => x.2 != 0) "moved-taxa-nonzero" ++
       tagIf (branches.any fun x => decide (x.2.2.1 > 1)) "several-closest-branches"
     if !ok then ⟨.pass, "skip" :: tags, ""⟩
-    else if out != "ok" then ⟨.oracle, tags, "TBE with the log options: outcome " ++ outClass out⟩
+    else if out != "ok" then ⟨.oracle, tags, "TBE with the log options '" ++ opts ++ "': outcome " ++ outClass out⟩
+    else if modelClass (tbeOpts optA optB r bs) != "ok" then
+      ⟨.tie, tags, "TBE with the log options '" ++ opts ++ "': model outcome " ++ modelClass (tbeOpts optA optB r bs)⟩
     else
+      -- oracle: whatever is logged, the supports written on the reference are the definition's
+      let gate := specUniq r && bs.all specUniq && specWf r && bs.all specWf
+      match (if after.isSome && gate then checkOne ("TBE with the log options '" ++ opts ++ "'") tbeOK r bs out a? else none) with
+      | some m => ⟨.oracle, tags, m⟩
+      | none =>
+      match (if after.isSome then tieOne ("TBE with the log options '" ++ opts ++ "'") (tbe r bs) out a? approxAbs else none) with
+      | some m => ⟨.tie, tags, m⟩
+      | none =>
+      if after.isSome && mode == "lib" && fidelityDiff r a? then ⟨.tie, tags, "TBE with the log options: the annotated reference is not the model's"⟩ else
+      -- a table / the raw tree that was not asked for is not written
+      if (!optR && !raw.isEmpty) || (!optA && !taxa.isEmpty) || (!optB && !branches.isEmpty) then
+        ⟨.tie, tags, "an output that was not asked for was written (options '" ++ opts ++ "')"⟩ else
       -- oracle: the raw tree carries the mean least transfer distance of the definition
       let n := ntips r
       let rawDef : List (Nat × Rat × Int) := (List.zip (List.range r.splits.length) r.splits).filterMap fun x =>
@@ -296,9 +361,11 @@ def logCase (rd bds cs out raws taxas brs : String) : Verdict :=
         else none
       let eqRaw (a b : List (Nat × Rat × Int)) : Bool :=
         zipAll (fun x y => x.1 == y.1 && approxLog x.2.1 y.2.1 && x.2.2 == y.2.2) a b
-      if !eqRaw raw rawDef then ⟨.oracle, tags, "raw tree: average transfer distances differ from the definition"⟩
+      if optR && !eqRaw raw rawDef then ⟨.oracle, tags, "raw tree: average transfer distances differ from the definition"⟩
       else
-        let m := tbeLog r bs cutoff
+        let m0 := tbeLog r bs cutoff
+        -- the three outputs are independent of each other: an option that is not given removes its output only
+        let m : LogOut := { raw := if optR then m0.raw else [], taxa := if optA then m0.taxa else [], branches := if optB then m0.branches else [] }
         if !eqRaw raw m.raw then ⟨.tie, tags, "model raw tree"⟩
         else if !zipAll (fun x y => x.1 == y.1 && approxLog x.2 y.2) taxa m.taxa then
           ⟨.tie, tags, "model moved taxa " ++ showRatList (m.taxa.map (·.2))⟩
@@ -311,7 +378,7 @@ def logCase (rd bds cs out raws taxas brs : String) : Verdict :=
           let rowsOK := branches.all fun x =>
             if x.2.1 > 1 then
               -- the raw tree numbers the branches by position, the table prints the branch id
-              match raw.find? (fun y => ((r.splits.map (·.e.id)).getD y.1 (-1)) == x.1) with
+              match m0.raw.find? (fun y => ((r.splits.map (·.e.id)).getD y.1 (-1)) == x.1) with
               | some y => decide (absR (x.2.2.2.sum - y.2.1) * 1000000 ≤ ((x.2.2.2.length + 1 : Nat) : Rat))
               | none => x.2.2.2.all (· == 0)
             else true
@@ -319,9 +386,84 @@ def logCase (rd bds cs out raws taxas brs : String) : Verdict :=
           else ⟨.pass, "log-rows-sum-to-distance" :: tags, ""⟩
   | _, _, _, _, _, _ => bad "C10.log fields"
 
+/-- the mean least transfer distance of the definition, per inner branch (position, mean, depth) -/
+def rawDefOf (r : T) (bs : List T) : List (Nat × Rat × Int) :=
+  let n := ntips r
+  (List.zip (List.range r.splits.length) r.splits).filterMap fun x =>
+    if 2 ≤ depth r.tipNames x.2.below then
+      let L := lightSide r.tipNames x.2.below
+      some (x.1, (((bs.map (minTransferPure L n)).sum : Nat) : Rat) / ((bs.length : Nat) : Rat),
+            ((depth r.tipNames x.2.below : Nat) : Int))
+    else none
+
+def eqRawL (a b : List (Nat × Rat × Int)) : Bool :=
+  zipAll (fun x y => x.1 == y.1 && approxLog x.2.1 y.2.1 && x.2.2 == y.2.2) a b
+
+def parseOutItems (s : String) : Option (List (String × String)) :=
+  (splitTerm "@@" s).mapM fun it =>
+    match it.splitOn "=" with
+    | k :: rest => some (k, "=".intercalate rest)
+    | [] => none
+
+/-- one run of `gotree compute support fbp|classical|tbe|booster` with -o / -r / -l given as a file,
+    `stdout`, `-` or left out (harness/c10/cliout.go): every tree that was written, wherever it went,
+    carries the definition's supports / mean distances (oracle); where it went, in which order, and the
+    head of the log are the model's (`stdoutItems` …, `logHeaderOK`). -/
+def outCase (which outSel rawSel logSel th rd bds inP bootP outP exit so fo ro logs : String) : Verdict :=
+  match T.undump rd, parseDumps bds, parseOutItems so, parseOutItems fo, parseOutItems ro, parseStrList logs,
+        unescape inP, unescape bootP, unescape outP with
+  | some r, some bs, some sOut, some fOut, some rOut, some logLines, some inPath, some bootPath, some outArg =>
+    let isT := which == "tbe" || which == "booster"
+    let thN : Int := th.toInt?.getD 1
+    let tags := ["cli-out", "cli-out-" ++ which, "out=" ++ outSel, "log=" ++ logSel] ++ tagIf isT ("raw=" ++ rawSel) ++
+      tagIf (isT && toStdout outSel && rawSel != "none" && toStdout rawSel) "raw-and-supports-on-stdout"
+    -- a reference without any non-trivial branch has a raw tree that looks like the annotated one: not judged
+    let ok := hypOK r bs && idsInRange r && specUniq r && bs.all specUniq && specWf r && bs.all specWf && !(rawDefOf r bs).isEmpty
+    if !ok then ⟨.pass, "skip" :: tags, ""⟩
+    else if exit != "ok" then ⟨.oracle, tags, "gotree compute support " ++ which ++ ": outcome " ++ outClass exit ++ " on trees with the same taxa"⟩
+    else
+      let all := sOut ++ fOut ++ rOut
+      -- oracle: whatever was written carries the definition's values
+      let judge (it : String × String) : Option (Bool × String) :=
+        if it.1 == "sup" then
+          match T.undump it.2 with
+          | none => some (false, "unreadable tree")
+          | some a =>
+            match checkOne (which ++ " (-o " ++ outSel ++ ")") (if isT then tbeOK else fbpOK) r bs "ok" (some a) with
+            | some m => some (true, m)
+            | none =>
+              (tieOne which (if isT then tbeCfg thN r bs else fbpCfg thN r bs) "ok" (some a) (if isT then approxAbs else approxRelOrEq)).map fun m => (false, m)
+        else if it.1 == "raw" then
+          match parseRaw it.2 with
+          | none => some (false, "unreadable raw tree")
+          | some raw =>
+            if !eqRawL raw (rawDefOf r bs) then some (true, "raw tree (-r " ++ rawSel ++ "): average transfer distances differ from the definition")
+            else if !eqRawL raw (tbeLog r bs (3/10)).raw then some (false, "model raw tree") else none
+        else some (false, "a line that is not a tree was written")
+      match all.filterMap judge with
+      | x :: xs =>
+        (match (x :: xs).find? (·.1) with
+         | some (_, m) => ⟨.oracle, tags, m⟩
+         | none => ⟨.tie, tags, x.2⟩)
+      | [] =>
+        if sOut.map (·.1) != stdoutItems isT outSel rawSel then
+          ⟨.tie, tags, "standard output holds " ++ toString (sOut.map (·.1)) ++ ", model " ++ toString (stdoutItems isT outSel rawSel)⟩
+        else if fOut.map (·.1) != outFileItems outSel then
+          ⟨.tie, tags, "-o file holds " ++ toString (fOut.map (·.1)) ++ ", model " ++ toString (outFileItems outSel)⟩
+        else if rOut.map (·.1) != rawFileItems isT rawSel then
+          ⟨.tie, tags, "-r file holds " ++ toString (rOut.map (·.1)) ++ ", model " ++ toString (rawFileItems isT rawSel)⟩
+        else if logSel == "file" && !logHeaderOK isT inPath bootPath outArg thN logLines then
+          ⟨.tie, tags, "log file: " ++ toString logLines⟩
+        else ⟨.pass, tags ++ tagIf (all.any fun it => it.1 == "sup" && ((T.undump it.2).map (fun a => (supsOf a).any between)).getD false) "nontrivial", ""⟩
+  | _, _, _, _, _, _, _, _, _ => bad "C10.out fields"
+
 def handle (op : String) (f : List String) : Verdict :=
   match op, f with
-  | "log", [rd, bds, cs, out, raws, taxas, brs] => logCase rd bds cs out raws taxas brs
+  | "log", [rd, bds, cs, out, raws, taxas, brs] => logCase "lib" "abr" rd bds cs out raws taxas brs none
+  | "logx", [mode, opts, rd, bds, cs, out, raws, taxas, brs, after] => logCase mode opts rd bds cs out raws taxas brs (some after)
+  | "out", [which, outSel, rawSel, logSel, th, rd, bds, inP, bootP, outP, exit, so, fo, ro, logs] =>
+    outCase which outSel rawSel logSel th rd bds inP bootP outP exit so fo ro logs
+  | "cancel", [kind, th, ks, p0s, rd, bds, out, after, progs] => cancelCase kind th ks p0s rd bds out after progs
   | "step", [kind, th, pos, share, rd, bds, out, after, _session] => stepCase kind th pos share rd bds out after
   | "cli", [th, refItems, bootItems, fo, fa, to, ta] => cliCase th refItems bootItems fo fa to ta
   | "sup", [mode, rd, bds, fo, fa, to, ta] => supCase mode "1" rd bds fo fa to ta
